@@ -160,8 +160,9 @@ func (m *mock) Go(b *board.Board, opts ...search.Option) (chess.Score, move.Move
 type e2eResult struct {
 	soft     int64
 	deadline time.Duration // virtual time between search start (or ponderhit) and Stop closing
-	timedOut bool
-	bestmove bool
+	timedOut   bool
+	bestmove   bool
+	noDeadline bool // the stop channel was still open after the whole clock had run out
 }
 
 func e2e(t *testing.T, c clock, ponder bool, oddPly bool, pings int) (res e2eResult) {
@@ -230,7 +231,20 @@ func e2e(t *testing.T, c clock, ponder bool, oddPly bool, pings int) (res e2eRes
 			}
 			send("isready")
 		}
-		// the blocking search only returns when Stop closes = when the armed deadline fires
+		// the blocking search only returns when Stop closes = when the armed deadline fires. Virtual
+		// time costs nothing: wait for the whole remaining clock (or move time) plus a second; a
+		// search that is still running then has no deadline at all.
+		own, _ := c.own()
+		bound := max(own, c.Mtime, 1) + 1000
+		time.Sleep(time.Duration(bound) * time.Millisecond)
+		synctest.Wait()
+		m.mu.Lock()
+		armed := !m.stopped.IsZero()
+		m.mu.Unlock()
+		if !armed {
+			res.noDeadline = true
+			send("stop")
+		}
 		for l := range lines {
 			if strings.HasPrefix(l, "bestmove") {
 				res.bestmove = true
@@ -262,6 +276,15 @@ func e2eCase(t *testing.T, r *ev.Run, c clock, ponder bool, oddPly bool, pings i
 	}
 	if pings > 0 {
 		kind += fmt.Sprintf("-%d-isready-pings", pings)
+	}
+	timed, _, _ := limits(c)
+	if res.noDeadline && timed {
+		r.Violation("C14:no-deadline-armed", witness{Kind: kind, Clock: c, Ponder: ponder},
+			fmt.Sprintf("%+v ponder=%v: the search was still running after the whole remaining time (+1 s) had passed in virtual time: no hard deadline was armed", c, ponder))
+		return
+	}
+	if res.noDeadline {
+		return // untimed request (no clock for the side to move): nothing to judge
 	}
 	if !res.bestmove {
 		r.Violation("C14:no-bestmove-after-deadline", witness{Kind: kind, Clock: c, Ponder: ponder}, "the blocking search was never stopped / no bestmove")
